@@ -21,7 +21,7 @@ ASSUMPTIONS = ["a refused call is one that raises any exception"]
 CONFIG = {"quick": {"shards": 4, "timeout_s": 600, "cases": 120},
           "thorough": {"shards": 16, "timeout_s": 3000, "cases": 4000}}
 REQUIRED_COUNTERS = ["successful_creations_checked", "refused_creations_checked", "default_values_checked", "passed_values_checked",
-                     "dtype_checks", "bulk_vs_single_checks", "std_type_vs_parameters_checks", "pipeflow_on_default_elements",
+                     "dtype_checks", "bulk_vs_single_checks", "bulk_argument_as_series", "bulk_argument_as_ndarray", "std_type_vs_parameters_checks", "pipeflow_on_default_elements",
                      "invalid_missing_junction", "invalid_duplicate_index", "invalid_unknown_std_type", "invalid_missing_pipe",
                      "invalid_setpoints", "invalid_geodata", "documented_defaults_parsed"]
 SECTORS = ["all", "gas", "water", "heat"]
@@ -340,6 +340,19 @@ def run_case(case, ctx):
             for kk in keys:
                 vals = [r[kk] for r in rows]
                 bargs[PLURAL.get(kk, kk)] = vals if kk in PLURAL or len(set(map(repr, vals))) > 1 else vals[0]
+            # per-element arguments arrive in any iterable container: list, ndarray, or a Series whose (ascending) labels may or
+            # may not coincide with the labels of the new rows - values are taken by position
+            import pandas as pd
+            for kk in list(bargs):
+                if isinstance(bargs[kk], list) and len(bargs[kk]) == k and kk != "geodata":
+                    form = int(rng.integers(4))
+                    if form == 1 and not any(isinstance(v, (str, type(None))) for v in bargs[kk]):
+                        bargs[kk] = np.array(bargs[kk])
+                        obs.count("bulk_argument_as_ndarray")
+                    elif form >= 2:
+                        start = 0 if form == 2 else int(rng.integers(0, 4))
+                        bargs[kk] = pd.Series(bargs[kk], index=pd.RangeIndex(start, start + k))
+                        obs.count("bulk_argument_as_series")
             if single == "create_junction":
                 bargs["nr_junctions"] = k
             if single in ("create_pipe",):
